@@ -8,8 +8,10 @@ package verif
 import (
 	"encoding/json"
 	"fmt"
+	"math/big"
 	"os"
 	"strconv"
+	"time"
 )
 
 var (
@@ -53,7 +55,13 @@ func loadModel() {
 }
 
 // Reset clears native replay state (between replays in one process).
-func Reset() { model = nil; counters = map[string]int{}; Failed = nil; Witnessed = nil; Unassumed = false }
+func Reset() {
+	model = nil
+	counters = map[string]int{}
+	Failed = nil
+	Witnessed = nil
+	Unassumed = false
+}
 
 func next(label string) (string, bool) {
 	loadModel()
@@ -191,3 +199,18 @@ func ReplayInInterpreter() {}
 // AssumeFailed is the panic value used by the native Assume to stop a replay whose model does
 // not satisfy the harness assumptions.
 type AssumeFailed struct{}
+
+// Time returns an arbitrary instant between year 1 and year 9999 (UTC). The model value is the
+// number of nanoseconds since the Unix epoch as a decimal string.
+func Time(label string) time.Time {
+	v, ok := next(label)
+	if !ok {
+		return time.Time{}
+	}
+	ns, ok := new(big.Int).SetString(v, 10)
+	if !ok {
+		return time.Time{}
+	}
+	sec, nsec := new(big.Int).DivMod(ns, big.NewInt(1000000000), new(big.Int))
+	return time.Unix(sec.Int64(), nsec.Int64()).UTC()
+}
